@@ -120,6 +120,13 @@ class GdbTracker(Tracker):
         self.warnings += len(env.log_capture.take())
         return got[0], rec
 
+    def destroy(self, tag):
+        """libwayland destroys the connection (wl_connection_destroy breakpoint); its address may be used again"""
+        if tag in self.tags:
+            self.drv.destroy(self.tags[tag])
+            self.sides.pop(self.tags[tag], None)
+            self.world.close(tag)
+
     def close(self):
         self.drv.close()
 
